@@ -1,10 +1,11 @@
 (* Extraction of the executable models.  ExtrOcamlBasic only; no Extract Constant. *)
 From Coq Require Extraction.
 From Coq Require Import ExtrOcamlBasic.
-From Lou Require Model.Hyph Model.HyphSpec Model.Log Model.Resolve Model.Meta.
+From Lou Require Model.Hyph Model.HyphSpec Model.Log Model.Resolve Model.Meta Model.Engine.
 Extraction Language OCaml.
 Extraction "../ocaml/model.ml"
   Hyph.build Hyph.walk Hyph.hyphenate Hyph.split_token HyphSpec.Hyph_spec
   Log.lrun Log.linit
   Resolve.resolve_list Resolve.resolve_sub Resolve.search_path Resolve.candidates
-  Meta.score Meta.find_table Meta.find_tables Meta.get_info.
+  Meta.score Meta.find_table Meta.find_tables Meta.get_info
+  Engine.translate_impl Engine.translate_ref Table.mkEntry.
